@@ -132,7 +132,102 @@ def draw_corrupt(R, approx_len):
 
 # ---------------------------------------------------------------------------
 
+KOFN_TYPES = ['StoryDelete', 'EAStoryDelete', 'EAStoryMove', 'ItemDelete', 'EAItemDelete', 'ItemMoveMultiple', 'EAItemMove',
+              'EAStorySwap', 'EAItemSwap']
+KOFN_SHAPES = ['unknown', 'blank', 'repeat', 'target', 'stale-other-story']
+KOFN_COMBOS = [(t, n, k, sh) for t in KOFN_TYPES for n in (1, 2, 3, 4) for k in range(1, n + 1) for sh in KOFN_SHAPES
+               if not ('Swap' in t and n != 2) and not (sh == 'target' and ('Delete' in t or 'Swap' in t))]
+
+
+def generate_kofn(seed):
+    """stratified fault positions: message type x list length n x position k of the bad reference x its shape;
+    everything else (running order, which ids, rendering) is drawn from the seed"""
+    from .ncs import Ncs
+    t, n, k, shape = KOFN_COMBOS[seed % len(KOFN_COMBOS)]
+    P = dict(PROFILES['mixed'], max_items=6)
+    g = Ncs(seed, P, True)
+    R = g.R
+    content = [T('roID', g.ro_id), T('roSlug', 'kofn')]
+    stories = [g.gen_story(n_items=R.randint(5, 6)) for _ in range(R.randint(5, 7))]
+    content += stories
+    if R.random() < 0.5:
+        content.append(g.gen_meta('roTrailer'))
+    truth = ids_of_content(content)
+    mid = R.choice([5, 98, 9990])
+    steps = [{'k': 'create', 'op': {'type': 'ROCreate', 'mid': mid, 'ro_id': g.ro_id, 'payload': content, 'env': {}}, 'knobs': {}, 'path': 'str'}]
+    level_item = 'Item' in t
+    si = R.randrange(len(truth))
+    pool = list(truth[si][1]) if level_item else [s for s, _ in truth]
+    other_items = [i for j, e in enumerate(truth) if j != si for i in e[1] if i not in pool]
+    target = R.choice(pool)
+    cand = [x for x in pool if x != target]
+    srcs = R.sample(cand, min(n, len(cand)))
+    while len(srcs) < n:
+        srcs.append('extra-%d' % len(srcs))
+    shapes = ['existing'] * n
+    bad = {'unknown': 'no-such-id', 'blank': None, 'repeat': srcs[0] if k > 1 else (srcs[1] if n > 1 else 'no-such-id'),
+           'target': target, 'stale-other-story': (R.choice(other_items) if level_item and other_items else 'no-such-id')}[shape]
+    srcs[k - 1] = bad
+    shapes[k - 1] = shape
+    op = {'type': t, 'ro_id': g.ro_id, 'mid': mid + 7, 'env': {}, 'sources': srcs,
+          'shapes': {'sources': shapes, 'pos': 'k=%d/n=%d' % (k, n), 'target': 'existing'}}
+    if level_item:
+        op['story'] = truth[si][0]
+        op['shapes']['story'] = 'existing'
+    if 'Move' in t:
+        op['target'] = target if R.random() < 0.7 else None
+        op['tform'] = 'id' if op['target'] is not None else R.choice(['blank', 'absent'])
+        if op['target'] is None:
+            op['shapes']['target'] = 'end'
+    if t in ('EAStorySwap',):
+        op['tform'] = R.choice(['absent', 'blank'])
+    steps.append({'k': 'msg', 'op': op, 'knobs': draw_knobs(R, R.random() < 0.5), 'path': R.choice(['str', 'bytes', 'file']), 'via': 'MosFile'})
+    # a second, fully resolvable message shows that the running order is still usable afterwards
+    g.truth = truth
+    g.faulty = False
+    g.shapes = dict(g.SHAPES_CLEAN)
+    op2 = g.gen_op()
+    op2['mid'] = mid + 9
+    op2['env'] = {}
+    steps.append({'k': 'msg', 'op': op2, 'knobs': {}, 'path': 'str', 'via': 'MosFile'})
+    return {'version': 1, 'seed': seed, 'profile': 'kofn', 'config': {'profile': 'kofn', 'faulty': True, 'page_size': 3,
+            'double': False, 'twin': False, 'prefix': 'ro/'}, 'steps': steps, 'dropped': []}
+
+
+def generate_trunc(seed):
+    """one stored document truncated at EVERY byte offset (and with every byte flipped at a stride): classification only"""
+    from .ncs import Ncs
+    from .ops import document
+    from .render import render_bytes
+    P = dict(PROFILES['classify'], max_items=2, max_paras=1, max_stories=2)
+    g = Ncs(seed, P, False)
+    R = g.R
+    content = g.gen_ro_content(R.randint(0, 2))
+    g.truth = ids_of_content(content)
+    mid = R.choice([5, 98, 9990])
+    steps = [{'k': 'create', 'op': {'type': 'ROCreate', 'mid': mid, 'ro_id': g.ro_id, 'payload': content, 'env': {}}, 'knobs': {}, 'path': 'str'}]
+    op = g.gen_op() if R.random() < 0.8 else gen_raw(g, R)
+    op['ro_id'] = g.ro_id
+    op['mid'] = mid + 3
+    op['env'] = draw_env(R)
+    knobs = draw_knobs(R)
+    L = len(render_bytes(document(op), knobs))
+    path = R.choice(['bytes', 'file', 's3'])
+    for at in range(0, L):
+        steps.append({'k': 'msg', 'op': op, 'knobs': knobs, 'path': path, 'via': 'MosFile', 'merge': False,
+                      'corrupt': {'kind': 'truncate', 'at': at}, 'key': 't%d.mos.xml' % at})
+    for at in range(seed % 7, L, 7):
+        steps.append({'k': 'msg', 'op': op, 'knobs': knobs, 'path': path, 'via': 'MosFile', 'merge': False,
+                      'corrupt': {'kind': 'flip', 'at': at, 'mask': R.choice([0x01, 0x20, 0x80, 0x1c])}, 'key': 'f%d.mos.xml' % at})
+    return {'version': 1, 'seed': seed, 'profile': 'trunc', 'config': {'profile': 'trunc', 'faulty': True, 'page_size': 3,
+            'double': False, 'twin': False, 'prefix': 'ro/'}, 'steps': steps, 'dropped': []}
+
+
 def generate(seed, profile_name, faulty=None):
+    if profile_name == 'kofn':
+        return generate_kofn(seed)
+    if profile_name == 'trunc':
+        return generate_trunc(seed)
     P = dict(PROFILES[profile_name])
     if faulty is None:
         faulty = bool(seed & 1)
